@@ -45,6 +45,10 @@ func c03Alphabet() []c03Letter {
 			// the same recipient named twice with different amounts, and the sender itself as one of the outputs
 			return kit.Tx{From: D, Asset: "pUSD", Amount: 8 * s, To: []kit.Out{{Addr: B, Amount: 4 * s}, {Addr: AddrC, Amount: s}, {Addr: B, Amount: 2 * s}, {Addr: D, Amount: s}}}
 		}},
+		{"zeroout", func(D factom.FAAddress, s uint64, _ factom.FAAddress) kit.Tx {
+			// zero-amount outputs before, between and after the outputs that carry the funds
+			return kit.Tx{From: D, Asset: "pUSD", Amount: 5 * s, To: []kit.Out{{Addr: B, Amount: 0}, {Addr: AddrC, Amount: 3 * s}, {Addr: D, Amount: 0}, {Addr: B, Amount: 2 * s}, {Addr: AddrC, Amount: 0}}}
+		}},
 		{"self", func(D factom.FAAddress, s uint64, _ factom.FAAddress) kit.Tx { return kit.Transfer(D, "pUSD", 10*s, D) }},
 		{"burn", func(D factom.FAAddress, s uint64, burn factom.FAAddress) kit.Tx { return kit.Transfer(D, "pUSD", 3*s, burn) }},
 		{"burnmix", func(D factom.FAAddress, s uint64, burn factom.FAAddress) kit.Tx {
